@@ -1,5 +1,6 @@
 //! vx-sim: engines A/B/C/F — scenarios driven through a real `turmoil::Sim`.
 
+mod c01;
 mod c02;
 mod c04;
 mod c09;
@@ -22,6 +23,9 @@ where
 {
     let mut d = DfsConfig::new(name, dev);
     d.wall = wall;
+    // C01's verdict is itself "two executions differ": the differing line may change from
+    // run to run, so the identical-verdict re-execution does not apply
+    d.recheck = rep.property != "C01";
     let st = explore_dfs(&d, f);
     for s in st.samples.iter().take(2) {
         rep.sample(json!({"part": name, "choices": s}));
@@ -39,6 +43,15 @@ fn main() {
     }
     if args[1] == "replay" {
         replay(&args[2]);
+        return;
+    }
+    if args[1] == "c01-child" {
+        c01_child(&args[2], &args[3]);
+        return;
+    }
+    if args[1] == "c01-trace" {
+        let choices: Vec<u32> = args[3].split(',').filter(|x| !x.is_empty()).map(|x| x.parse().unwrap()).collect();
+        c01::print_trace(&choices, args[2] == "thorough");
         return;
     }
     let tier = Tier::parse(&args[2]);
@@ -96,6 +109,13 @@ fn main() {
             run_dfs(&mut rep, "barriers-registry-preemption-bounded", tier.pick(2, 4), wall, move |ch| c20::scenario(ch, thorough, 1));
             rep.finish();
         }
+        "C01" => {
+            let mut rep = Report::new("C01", tier, "model_checking", "sim");
+            rep.rule = "stateless enumeration: program family (UDP fan-in + broadcast, TCP echo with timeouts, tokio select/spawn/JoinSet with several ready branches, fs + io_uring batches) x host count 1..5 x controller script (none, partition/repair, hold/release, crash/bounce, bounce twice + one-way partition) as a full product, builder knobs (rng seed, tick, latency range, fail/repair rate, random node order, tcp/udp capacity, ip version, fs fault knob sets, epoch) deviation-bounded from the default; every scenario is executed twice in this process and once in each of two fresh OS processes and the complete traces (every turmoil tracing event with its span, every program observation with its virtual timestamp, step results, clocks, in-flight messages) are compared".into();
+            run_dfs(&mut rep, "twin-in-process", tier.pick(2, 4), wall, move |ch| c01::scenario(ch, thorough, false));
+            c01_cross_process(&mut rep, thorough);
+            rep.finish();
+        }
         "C04" => {
             let mut rep = Report::new("C04", tier, "model_checking", "sim");
             rep.rule = "complete fault grid: workload (TCP with a reading / non-reading / slow-accepting victim and two reconnecting peers, UDP + multicast holder, idle host with nested spawn / spawn_local tasks) x {crash before step c then bounce after 0/1/3 steps or never | bounce without crash before step c | crash, bounce, crash again} x victim selected by name or regex, c over every step of the workload; drop guards at crash return, frozen side effects while down, empty socket tables (count hook), no peer operation left hanging after a 40-step fair suffix, ports bindable by the next incarnation, factory invocations = 1 + bounces, no old-stream bytes or stale multicast membership at the new incarnation, uninvolved hosts' logs identical to the crash-free twin".into();
@@ -118,6 +138,95 @@ fn main() {
     }
 }
 
+/// Re-run every scenario of the in-process pass in two fresh OS processes and compare digests.
+fn c01_cross_process(rep: &mut Report, thorough: bool) {
+    use std::io::Write;
+    let mine = c01::DIGESTS.lock().unwrap().clone();
+    let dir = vx_core::report::verif_dir().join("target");
+    let _ = std::fs::create_dir_all(&dir);
+    let keys = dir.join(format!("c01-keys-{}.txt", std::process::id()));
+    {
+        let mut f = std::fs::File::create(&keys).unwrap_or_else(|e| vx_core::machinery_error(&format!("{e}")));
+        for k in mine.keys() {
+            let _ = writeln!(f, "{}", k.iter().map(|x| x.to_string()).collect::<Vec<_>>().join(","));
+        }
+    }
+    let exe = std::env::current_exe().unwrap();
+    let tier = if thorough { "thorough" } else { "quick" };
+    let mut part = vx_core::report::Part { name: "fresh-processes".into(), exhaustive: true, bounds: "every scenario of the in-process pass, once in each of 2 fresh OS processes".into(), ..Default::default() };
+    let mut outcomes = std::collections::BTreeSet::new();
+    for child in 0..2 {
+        let out = std::process::Command::new(&exe).arg("c01-child").arg(tier).arg(&keys).output().unwrap_or_else(|e| vx_core::machinery_error(&format!("cannot start child process: {e}")));
+        if !out.status.success() {
+            vx_core::machinery_error(&format!("c01 child process failed: {}", String::from_utf8_lossy(&out.stderr)));
+        }
+        let mut seen = 0u64;
+        for line in String::from_utf8_lossy(&out.stdout).lines() {
+            let Some((k, d)) = line.split_once(' ') else { continue };
+            let key: Vec<u32> = k.split(',').filter(|x| !x.is_empty()).map(|x| x.parse().unwrap()).collect();
+            let d: u64 = d.parse().unwrap();
+            seen += 1;
+            outcomes.insert(d);
+            let Some(m) = mine.get(&key) else { vx_core::machinery_error("child reported an unknown scenario") };
+            if *m != d && rep.violations.len() < 50 {
+                // fetch both traces for the message
+                let me: Vec<String> = {
+                    let o = std::process::Command::new(&exe).arg("c01-trace").arg(tier).arg(k).output().unwrap();
+                    String::from_utf8_lossy(&o.stdout).lines().map(String::from).collect()
+                };
+                let other: Vec<String> = {
+                    let o = std::process::Command::new(&exe).arg("c01-trace").arg(tier).arg(k).output().unwrap();
+                    String::from_utf8_lossy(&o.stdout).lines().map(String::from).collect()
+                };
+                let i = me.iter().zip(other.iter()).position(|(a, b)| a != b).unwrap_or(me.len().min(other.len()));
+                let cfgs = c01::describe(&key, thorough);
+                let mut v = vx_core::Violation::new(
+                    "cross-process-differs",
+                    format!("the trace digest of a scenario differs between this process and a fresh process; two further fresh processes differ first at line {i}: {:?} vs {:?}", me.get(i), other.get(i)),
+                );
+                v.sig = format!("cross-process-differs|{}", cfgs.split("family: ").nth(1).and_then(|s| s.split(',').next()).unwrap_or("?"));
+                v.scenario = format!("c01 tier={tier} cross-process {cfgs}");
+                v.choices = key.clone();
+                rep.violations.push(v);
+            }
+        }
+        if seen != mine.len() as u64 {
+            vx_core::machinery_error(&format!("c01 child {child} reported {seen} scenarios, expected {}", mine.len()));
+        }
+        part.executions += seen;
+        part.transitions += seen;
+    }
+    part.states = mine.len() as u64;
+    part.distinct_outcomes = outcomes.len() as u64;
+    part.max_depth = mine.keys().map(|k| k.len() as u64).max().unwrap_or(0);
+    let _ = std::fs::remove_file(&keys);
+    rep.add_part(part);
+}
+
+fn c01_child(tier: &str, keys: &str) {
+    let thorough = tier == "thorough";
+    let txt = std::fs::read_to_string(keys).unwrap_or_else(|e| vx_core::machinery_error(&format!("{e}")));
+    let keys: Vec<Vec<u32>> = txt.lines().map(|l| l.split(',').filter(|x| !x.is_empty()).map(|x| x.parse().unwrap()).collect()).collect();
+    let next = std::sync::atomic::AtomicUsize::new(0);
+    let out = std::sync::Mutex::new(Vec::new());
+    std::thread::scope(|s| {
+        for _ in 0..vx_core::threads() {
+            s.spawn(|| loop {
+                let i = next.fetch_add(1, std::sync::atomic::Ordering::Relaxed);
+                if i >= keys.len() {
+                    break;
+                }
+                let mut ch = vx_core::Chooser::from_choices(&keys[i]);
+                let e = c01::scenario(&mut ch, thorough, true);
+                out.lock().unwrap().push((i, e.outcome));
+            });
+        }
+    });
+    for (i, d) in out.into_inner().unwrap() {
+        println!("{} {}", keys[i].iter().map(|x| x.to_string()).collect::<Vec<_>>().join(","), d);
+    }
+}
+
 fn replay(path: &str) {
     let txt = std::fs::read_to_string(path).unwrap_or_else(|e| vx_core::machinery_error(&format!("{e}")));
     let v: serde_json::Value = serde_json::from_str(&txt).unwrap();
@@ -132,6 +241,24 @@ fn replay(path: &str) {
         "C03" => flow::c03_scenario(&mut ch, thorough),
         "C14" => flow::c14_scenario(&mut ch, thorough),
         "C12" => c12::scenario(&mut ch, thorough),
+        "C01" => {
+            // in-process twin, then the same scenario in a fresh process
+            let e = c01::scenario(&mut ch, thorough, false);
+            if e.violation.is_none() {
+                let exe = std::env::current_exe().unwrap();
+                let key = choices.iter().map(|x| x.to_string()).collect::<Vec<_>>().join(",");
+                let o = std::process::Command::new(&exe).arg("c01-trace").arg(if thorough { "thorough" } else { "quick" }).arg(&key).output().unwrap();
+                let other: Vec<String> = String::from_utf8_lossy(&o.stdout).lines().map(String::from).collect();
+                let mut ch2 = vx_core::Chooser::from_choices(&choices);
+                let mine = c01::run_trace(&c01::cfg_from(&mut ch2, thorough), false);
+                if mine != other {
+                    let i = mine.iter().zip(other.iter()).position(|(a, b)| a != b).unwrap_or(mine.len().min(other.len()));
+                    println!("VIOLATION clause=cross-process-differs : line {i}: {:?} (this process) vs {:?} (fresh process)", mine.get(i), other.get(i));
+                    std::process::exit(1);
+                }
+            }
+            e
+        }
         "C04" => c04::scenario(&mut ch, thorough),
         "C05" => timegrid::c05_scenario(&mut ch, thorough),
         "C11" => timegrid::c11_scenario(&mut ch, thorough),
